@@ -2,6 +2,7 @@
 import ast
 import inspect
 import itertools
+import math
 import os
 import textwrap
 from fractions import Fraction as F
@@ -120,6 +121,18 @@ def build(tier):
             al = S2.al[0, 0, 0]
             be, ga, K = gr.ungrid(S2.be), gr.ungrid(S2.ga), gr.ungrid(S2.K)
             gi3 = oracle.inverse(ga)
+            gu_first = gr.ungrid(rel['gup4'])          # requested before gdown4 has ever been cached
+            bd_ = np.einsum('i,ij->j', be, ga)
+            g4o = oracle.arr((4, 4))
+            g4o[0, 0] = -al * al + sum(be[i] * bd_[i] for i in range(3))
+            for i in range(3):
+                g4o[0, i + 1] = g4o[i + 1, 0] = bd_[i]
+                for j in range(3):
+                    g4o[i + 1, j + 1] = ga[i, j]
+            for a in range(4):
+                for b in range(4):
+                    P2(f'gup4(first request).g[{a},{b}]', sum(gu_first[a, k] * g4o[k, b] for k in range(4)), delta(a, b),
+                       'gup4 (requested first on a fresh instance) is the inverse of the 4-metric')
             P2('gdet(fresh branch)', rel['gdet'][0, 0, 0], -al * al * oracle.det(ga),
                'gdet == -alpha^2 gammadet (fresh)', get=lambda r: r['gdet'])
             E = gr.ungrid
@@ -259,13 +272,42 @@ class FPTranslator(ast.NodeVisitor):
     def zero(self):
         return f"(_ +zero {self.eb} {self.sb})"
 
+    def lit(self, x):
+        from fractions import Fraction
+        fr = Fraction(float(x))
+        s = f"(/ {abs(fr.numerator)}.0 {fr.denominator}.0)"
+        if x < 0:
+            s = f"(- {s})"
+        return f"((_ to_fp {self.eb} {self.sb}) RNE {s})"
+
     def tr(self, n):
         if isinstance(n, ast.Name):
             return n.id
+        # sub-expressions that do not mention the operands are constants: evaluate them with numpy
+        if not any(isinstance(x, ast.Name) and x.id in ('a', 'b') for x in ast.walk(n)) and not isinstance(n, ast.Constant):
+            try:
+                val = eval(compile(ast.Expression(n), '<const>', 'eval'), {'np': np, 'float': float, 'abs': abs})
+                return self.lit(float(val))
+            except Exception:  # noqa
+                pass
         if isinstance(n, ast.Constant):
             if n.value == 0:
                 return self.zero()
+            if isinstance(n.value, (int, float)):
+                return self.lit(n.value)
             raise ValueError(n.value)
+        if isinstance(n, ast.Call) and ast.unparse(n.func) in ('abs', 'np.abs', 'np.absolute'):
+            return f"(fp.abs {self.tr(n.args[0])})"
+        if isinstance(n, ast.Compare) and len(n.ops) == 1 and isinstance(n.ops[0], (ast.Gt, ast.Lt, ast.GtE, ast.LtE)):
+            op = {ast.Gt: 'fp.gt', ast.Lt: 'fp.lt', ast.GtE: 'fp.geq', ast.LtE: 'fp.leq'}[type(n.ops[0])]
+            return f"({op} {self.tr(n.left)} {self.tr(n.comparators[0])})"
+        if isinstance(n, ast.BoolOp):
+            op = 'and' if isinstance(n.op, ast.And) else 'or'
+            return f"({op} " + ' '.join(self.tr(v) for v in n.values) + ")"
+        if isinstance(n, ast.UnaryOp) and isinstance(n.op, ast.Not):
+            return f"(not {self.tr(n.operand)})"
+        if isinstance(n, ast.UnaryOp) and isinstance(n.op, ast.USub):
+            return f"(fp.neg {self.tr(n.operand)})"
         if isinstance(n, ast.BinOp) and isinstance(n.op, ast.Div):
             return f"(fp.div RNE {self.tr(n.left)} {self.tr(n.right)})"
         if isinstance(n, ast.Compare) and len(n.ops) == 1:
@@ -322,9 +364,14 @@ def safe_division_fp(report, tier):
                 report.record(name, v, round(dt, 3), 'z3new', sha=str(hash(q) & 0xffffffff),
                               group='safe_division (QF_FP)', kind='fp')
                 if v == 'sat':
-                    # replay on the real function
-                    report.violation(name, f"QF_FP counterexample for {ast.unparse(e)}",
-                                     report.write_replay(name, dict(query=q)))
+                    # replay on the real function with the model's bit patterns
+                    ab = fp_model_values(q, eb, sb)
+                    rp = replay_safe_division(ab, eb + sb)
+                    if rp['reproduces']:
+                        report.violation(f"safe_division: {nm}", f"{name}: safe_division({rp['a']!r}, {rp['b']!r}) = {rp['result']!r}",
+                                         report.write_replay(name, dict(query=q, replay=rp)))
+                    else:
+                        report.harness_errors.append(f"{name}: FP model {ab} does not reproduce on the real function: {rp}")
                 elif v != 'unsat':
                     report.inconc(name, 'FP query not settled')
     # type-dispatch enumeration (concrete; reported as enumeration, not a solver claim)
@@ -362,6 +409,57 @@ def safe_division_fp(report, tier):
         key = f"safe_division types ({ka},{kb})"
         report.violation(key, f"safe_division({ka}, {kb} with zeros) -> {r}",
                          report.write_replay(key, dict(a=ka, b=kb, result=r)))
+
+
+def fp_model_values(q, eb, sb):
+    """re-run the query asking for the model as bit vectors and decode (a, b)"""
+    import struct
+    q2 = q.replace('(get-value (a b))', '(get-value ((fp.to_ieee_bv a) (fp.to_ieee_bv b)))') if False else q
+    v, vals, dt = solver.run_script(q.replace('(check-sat)', '(check-sat)\n(eval a)\n(eval b)'), timeout_s=120, backend='z3new', tag='fpm')
+    import re as _re
+    import subprocess
+    path = os.path.join(solver.SCRATCH, 'fpm.smt2')
+    with open(path, 'w') as f:
+        f.write(q.replace('(get-value (a b))', '(eval a)\n(eval b)'))
+    out = subprocess.run([solver.Z3_NEW, '-smt2', path], capture_output=True, text=True, timeout=200).stdout
+    res = []
+    for m in _re.finditer(r'\(fp (#b[01]) (#[bx][0-9a-f]+) (#[bx][0-9a-f]+)\)|\(_ ([+-])(zero|oo) \d+ \d+\)|\(_ NaN \d+ \d+\)', out):
+        if m.group(1):
+            def bits(x, n):
+                return bin(int(x[2:], 16 if x[1] == 'x' else 2))[2:].zfill(n)
+            word = m.group(1)[2:] + bits(m.group(2), eb) + bits(m.group(3), sb - 1)
+            if eb + sb == 64:
+                res.append(struct.unpack('>d', int(word, 2).to_bytes(8, 'big'))[0])
+            else:
+                res.append(float(np.frombuffer(int(word, 2).to_bytes(4, 'big'), dtype='>f4')[0]))
+        elif m.group(4):
+            res.append(float(m.group(4) + ('0.0' if m.group(5) == 'zero' else 'inf')))
+        else:
+            res.append(float('nan'))
+    return res[:2]
+
+
+def replay_safe_division(ab, width):
+    from aurel import maths
+    import warnings
+    if len(ab) != 2:
+        return dict(reproduces=False, note=f'could not decode model {ab}')
+    a, b = ab
+    dt = np.float64 if width == 64 else np.float32
+    outs = []
+    with warnings.catch_warnings():
+        warnings.simplefilter('ignore')
+        for A, B in ((float(a), float(b)), (np.array([a], dtype=dt), np.array([b], dtype=dt)), (np.array([a], dtype=dt), float(b))):
+            if width == 32 and not isinstance(A, np.ndarray):
+                continue
+            r = maths.safe_division(A, B)
+            r = float(np.asarray(r).ravel()[0])
+            with np.errstate(all='ignore'):
+                want = 0.0 if b == 0 else float(np.asarray(np.array([a], dtype=dt) / np.array([b], dtype=dt))[0])
+            ok = (r == want) or (math.isnan(r) and math.isnan(want))
+            outs.append((type(A).__name__, r, want, ok))
+    bad = [o for o in outs if not o[3]]
+    return dict(a=a, b=b, result=bad[0][1] if bad else None, expected=bad[0][2] if bad else None, reproduces=bool(bad), runs=outs)
 
 
 def main(report, tier, seed, workers, calibrate=False):
